@@ -32,6 +32,13 @@ package tdpos
 //@   property C16
 //@   requires cfg: tdCfgOK(s)
 //@   requires ts_nonneg: timestamp >= 0
+//@   witness Period: s.period
+//@   witness BlockNum: s.blockNum
+//@   witness ProposerNum: s.proposerNum
+//@   witness Alternate: s.alternateInterval
+//@   witness TermInterval: s.termInterval
+//@   witness InitTimestamp: s.initTimestamp
+//@   witness Timestamp: timestamp
 //@   reveals tdposSlot
 //@   ensures slot: tdposSlot(s, timestamp, term, pos, blockPos)
 
